@@ -108,6 +108,9 @@ def _work(batch):
             r = _MODULE.run_instance(inst, _TIER)
             r.nontrivial = {k if isinstance(k, int) else hash(k) for k in r.nontrivial}  # bounded memory
             out.merge(r)
+        except engine.TreeTooLarge:
+            out.skipped += 1
+            out.count("instances_skipped_because_their_choice_tree_exceeds_the_cap")
         except engine.InfraError as e:
             out.infra.append(f"{type(e).__name__}: {e} on instance {str(inst)[:300]}")
         except (KeyboardInterrupt, SystemExit):
@@ -242,14 +245,17 @@ def run_check(modname, tier, seed, jobs=None):
         print(f"[{pid}]   {k} = {agg.counters[k]}")
     for line in known_lines:
         print(line)
-    if infra:
-        for m in infra[:10]:
-            print(f"INFRASTRUCTURE-ERROR property={pid} {m}")
-        return 2
     if new_violation_lines:
+        # a counterexample found on a completely explored instance stands on its own
+        for m in infra[:10]:
+            print(f"[{pid}] note (infrastructure): {m[:300]}")
         for line, v in new_violation_lines:
             print(f"[{pid}] violation key={v['key']} x{v['occurrences_seen']}: {v['message'][:400]}")
             print(line)
         return 1
+    if infra:
+        for m in infra[:10]:
+            print(f"INFRASTRUCTURE-ERROR property={pid} {m}")
+        return 2
     print(f"[{pid}] OK")
     return 0
